@@ -100,7 +100,8 @@ fn resolve_array_mut(v: &mut Variant, indices: Vec<Variant>) -> Result<&mut Vari
                 .get_element_mut(&int_indices)
                 .map_err(RuntimeError::from)
         }
-        _ => panic!("Expected array, found {:?}", v),
+        // a dynamic array that has not been dimensioned yet (its DIM or REDIM was jumped over)
+        _ => Err(RuntimeError::SubscriptOutOfRange),
     }
 }
 
